@@ -240,6 +240,7 @@ reg("C08",
 # ------------------------------------------------------------------------------------------------ C09
 reg("C09",
     H("c09", "c09_change_cipher_spec_message", cfg="serialize", timeout=900, mem=12, bounds="concrete shape, symbolic field contents (see harness)", funcs=["change_cipher_spec_message"]),
+    H("c09", "c09_ext_sni_two_names", cfg="serialize", timeout=900, mem=12, bounds="SNI extension with two names (1 and 2 bytes), name types and bytes symbolic", funcs=["gen_tls_extension", "gen_tls_ext_sni"]),
     H("c09", "c09_plaintext_record_empty_stale_len", cfg="serialize", timeout=600, bounds="empty record, record type / version / stale hdr.len symbolic", funcs=["gen_tls_plaintext"]),
     H("c09", "c09_reserialization_normal_form", cfg="serialize", timeout=600, bounds="ServerHello, ext None vs Some(empty), all scalar fields symbolic", funcs=["gen_tls_serverhello"]),
     H("c09", "c09_plaintext_record_of_messages", cfg="serialize", tier="thorough", timeout=3000, mem=24, bounds="concrete shape, symbolic field contents (see harness)", funcs=["plaintext_record_of_messages"]),
@@ -382,6 +383,8 @@ reg("C16",
     H("c16", "c16_lemma_many1_complete", bounds="nom 7.1.3 many1(complete(p)) on a model parser with Copy output; buffer <= 8 B symbolic length (up to 8 elements)", funcs=["nom::multi::many1", "nom::combinator::complete"]),
     H("c16", "c16_lemma_many0_complete", bounds="nom 7.1.3 many0(complete(p)) on the same model parser; buffer <= 8 B", funcs=["nom::multi::many0", "nom::combinator::complete"]),
     H("c16", "c16_many_empty_and_garbage_first_record", bounds="concrete inputs: empty buffer; one complete record of unknown content type (TLS and DTLS), one symbolic payload byte", funcs=["tls_parser_many", "parse_dtls_plaintext_records"], timeout=900, mem=16),
+    H("c16", "c16_many_two_concrete_records", bounds="ChangeCipherSpec record + alert record, all bytes concrete except the alert payload; 15 handshake body parsers stubbed (unreachable)",
+      stubs=["15 handshake body parsers (unreachable for these content types)"], funcs=["tls_parser_many"], timeout=900, mem=16),
     H("c16", "c16_tls_parser_is_parse_tls_plaintext", bounds="<= 10 B symbolic length, all bytes symbolic; content dispatcher stubbed for both", stubs=["parse_tls_record_with_header"], funcs=["tls_parser", "parse_tls_plaintext"]),
     )
 
@@ -471,6 +474,10 @@ reg("C01",
     H("c01", "c01_debug_client_key_exchange", c01=True, tier="thorough", timeout=900, mem=12, bounds="Debug formatting of a value with 2-byte symbolic slices and symbolic scalars", funcs=["<client_key_exchange as Debug>::fmt"]),
     H("c01", "c01_debug_digitally_signed", c01=True, tier="thorough", timeout=900, mem=12, bounds="Debug formatting of a value with 2-byte symbolic slices and symbolic scalars", funcs=["<digitally_signed as Debug>::fmt"]),
     H("c01", "c01_debug_heartbeat", c01=True, tier="thorough", timeout=900, mem=12, bounds="Debug formatting of a value with 2-byte symbolic slices and symbolic scalars", funcs=["<heartbeat as Debug>::fmt"]),
+    H("c01", "c01_alloc_bound_certificate", c01=True, timeout=900, mem=12, stubs=["alloc::alloc::alloc / realloc (size assertion, then allocate)"], bounds="every allocation during the call <= 64 bytes per input byte + 1 KiB; input <= 11 B symbolic length", funcs=["parse_tls_handshake_msg_certificate"]),
+    H("c01", "c01_alloc_bound_sni", c01=True, timeout=900, mem=12, stubs=["alloc::alloc::alloc / realloc (size assertion, then allocate)"], bounds="every allocation during the call <= 64 bytes per input byte + 1 KiB; input <= 10 B symbolic length", funcs=["parse_tls_extension_sni_content"]),
+    H("c01", "c01_alloc_bound_sct_list", c01=True, tier="thorough", timeout=1500, mem=12, stubs=["alloc::alloc::alloc / realloc (size assertion, then allocate)"], bounds="every allocation during the call <= 64 bytes per input byte + 1 KiB; input <= 8 B symbolic length", funcs=["parse_ct_signed_certificate_timestamp_list"]),
+    H("c01", "c01_alloc_bound_certificate_request", c01=True, tier="thorough", timeout=1500, mem=12, stubs=["alloc::alloc::alloc / realloc (size assertion, then allocate)"], bounds="every allocation during the call <= 64 bytes per input byte + 1 KiB; input <= 7 B symbolic length", funcs=["parse_tls_handshake_certificaterequest"]),
     # every differential harness runs with all Kani default checks; for C01 an unwinding-assertion failure is a violation too.
     # quick tier: the cheaper half; thorough tier: all of them.
     *_pick("C02", ["c02_raw_small", "c02_plaintext_wiring", "c02_plaintext_heartbeat_3"], c01=True),
